@@ -3,8 +3,17 @@
 //@ functions: src/address.rs::Address::from_str, src/address.rs::Address::parse_with_params, src/address.rs::Address::from_bech32, src/address.rs::Address::from_base58
 //
 // Totality of the textual address parsers on every ASCII string of a concrete length: Ok or Err, no panic /
-// overflow / out-of-bounds.  Everything on the segwit side is REAL (prefix dispatch, the crate's blech32 decoder,
-// the bech32 crate's decoder, byte collection).  On the base58 side:
+// overflow / out-of-bounds.  `Address::from_str` has SIX call sites of the private `Address::from_bech32`
+// (3 networks x blinded/unblinded) and CBMC unrolls both segwit decoders at each of them (no answer in 15 min
+// even for 2-character strings), so the statement is split the contract way:
+//   * from_bech32_lN: the REAL `Address::from_bech32(s, blinded, params)` — the crate's blech32 decoder, the
+//     bech32 crate's decoder, byte collection, key split — is total for every ASCII string, both `blinded`
+//     values and all three networks;
+//   * from_str_lN / parse_with_params_lN: the REAL dispatchers with `from_bech32` replaced by a model that
+//     returns an arbitrary outcome and records its arguments: no panic, and `from_bech32` is entered exactly
+//     when the prefix before the last '1' equals, up to ASCII case, the HRP of the (network, blinded?) pair
+//     that is passed on (C06: a string is dispatched to at most one network).
+// On the base58 side:
 //   [A] `bitcoin::base58::decode_check` (base58 arithmetic + double SHA-256, not executable under CBMC) is
 //       replaced by a model returning EITHER an error OR an arbitrary byte vector of a length drawn from
 //       {0, 1, 20, 21, 22, 54, 55, 56, 60} (all boundary lengths of the two layouts) with arbitrary contents;
@@ -54,60 +63,39 @@ fn ascii<const N: usize>() -> [u8; N] {
     a
 }
 
-macro_rules! from_str_total {
-    ($name:ident, $n:expr, $unw:literal) => {
-        #[kani::proof]
-        #[kani::unwind($unw)]
-        #[kani::stub(b58::decode_check, decode_check_model)]
-        #[kani::stub(sffi::secp256k1_ec_pubkey_parse, ffi_models::pubkey_parse_model)]
-        #[kani::stub(sffi::secp256k1_ec_pubkey_serialize, ffi_models::pubkey_serialize_model)]
-        fn $name() {
-            const N: usize = $n;
-            ffi_models::init();
-            let a: [u8; N] = ascii::<N>();
-            let s: &str = match core::str::from_utf8(&a) { Ok(s) => s, Err(_) => { assert!(false); return; } };
-            let r = Address::from_str(s);
-            let stub_active = unsafe { DECODE_CALLS } > 0;
-            kani::cover!(stub_active);
-            kani::cover!(N < 3 || matches!(r, Err(AddressError::Blech32(_))));
-            kani::cover!(N < 3 || matches!(r, Err(AddressError::Bech32(_))));
-            kani::cover!(matches!(r, Err(AddressError::Base58(_))));
-            kani::cover!(matches!(r, Err(AddressError::InvalidLength(_))));
-            kani::cover!(matches!(r, Err(AddressError::InvalidAddress(_))));
-            kani::cover!(matches!(r, Ok(Address { blinding_pubkey: None, .. })));
-            kani::cover!(matches!(r, Ok(Address { blinding_pubkey: Some(_), .. })));
-            if N < 3 {
-                // too short to carry an HRP and a separator: can only be a base58 outcome
-                assert!(!matches!(r, Err(AddressError::Blech32(_)) | Err(AddressError::Bech32(_))));
-            }
-            if let Ok(ref adr) = r {
-                // a string of fewer than 15 characters is never a segwit address
-                assert!(!matches!(adr.payload, Payload::WitnessProgram { .. }));
-            }
-            core::mem::forget(r);
-        }
-    };
+// ---- model of Address::from_bech32 for the dispatcher harnesses (its totality is from_bech32_l*) --------
+static mut FB_CALLS: usize = 0;
+static mut FB_BLINDED: bool = false;
+static mut FB_PARAMS: usize = 0;
+fn from_bech32_model(_s: &str, blinded: bool, params: &'static AddressParams) -> Result<Address, AddressError> {
+    unsafe { FB_CALLS += 1; FB_BLINDED = blinded; FB_PARAMS = params as *const AddressParams as usize; }
+    if kani::any() {
+        Err(AddressError::InvalidSegwitV0Encoding)
+    } else {
+        Ok(Address { params, payload: Payload::WitnessProgram { version: Fe32::P, program: Vec::new() }, blinding_pubkey: None })
+    }
 }
-//@ harness: from_str_l0 class=F tier=quick props=C10 timeout=600
-//@ clause: Address::from_str on the empty string returns (Ok/Err) without panic; [A] base58 decode_check and pubkey parse by model
-from_str_total!(from_str_l0, 0, 6);
-//@ harness: from_str_l2 class=F tier=quick props=C10 timeout=600
-//@ clause: same, every 2-character ASCII string
-from_str_total!(from_str_l2, 2, 6);
-//@ harness: from_str_l3 class=F tier=quick props=C10 timeout=900
-//@ clause: same, every 3-character ASCII string (reaches both segwit decoders with an empty data part: "ex1", "EL1", ...)
-from_str_total!(from_str_l3, 3, 7);
-//@ harness: from_str_l4 class=F tier=thorough props=C10 timeout=1800
-//@ clause: same, every 4-character ASCII string
-from_str_total!(from_str_l4, 4, 8);
-//@ harness: from_str_l5 class=F tier=thorough props=C10 timeout=1800
-//@ clause: same, every 5-character ASCII string
-from_str_total!(from_str_l5, 5, 9);
 
-macro_rules! parse_with_params_total {
-    ($name:ident, $n:expr, $unw:literal) => {
+/// independent oracle: does `a[..p]` equal `hrp` up to ASCII case?
+fn eq_nocase(a: &[u8], p: usize, hrp: &[u8]) -> bool {
+    if p != hrp.len() { return false; }
+    let mut ok = true;
+    let mut k = 0;
+    while k < 3 {
+        if k < p {
+            let c = if a[k] >= b'A' && a[k] <= b'Z' { a[k] + 32 } else { a[k] };
+            if c != hrp[k] { ok = false; }
+        }
+        k += 1;
+    }
+    ok
+}
+
+macro_rules! dispatch_total {
+    ($name:ident, $n:expr, $unw:literal, $with_params:expr) => {
         #[kani::proof]
         #[kani::unwind($unw)]
+        #[kani::stub(super::Address::from_bech32, from_bech32_model)]
         #[kani::stub(b58::decode_check, decode_check_model)]
         #[kani::stub(sffi::secp256k1_ec_pubkey_parse, ffi_models::pubkey_parse_model)]
         #[kani::stub(sffi::secp256k1_ec_pubkey_serialize, ffi_models::pubkey_serialize_model)]
@@ -119,29 +107,98 @@ macro_rules! parse_with_params_total {
             let k: u8 = kani::any();
             kani::assume(k < 3);
             let params: &'static AddressParams = match k { 0 => &LIQ, 1 => &ELE, _ => &TLQ };
-            let r = Address::parse_with_params(s, params);
-            let stub_active = unsafe { DECODE_CALLS } > 0;
-            kani::cover!(stub_active);
-            kani::cover!(N < 3 || matches!(r, Err(AddressError::Blech32(_))));
-            kani::cover!(N < 3 || matches!(r, Err(AddressError::Bech32(_))));
+            let r = if $with_params { Address::parse_with_params(s, params) } else { Address::from_str(s) };
+            let (fb, fb_bl, fb_par, dec) = unsafe { (FB_CALLS, FB_BLINDED, FB_PARAMS, DECODE_CALLS) };
+            // ---- dispatch oracle (property text: prefix = part before the last '1', compared case-insensitively)
+            let mut last: Option<usize> = None;
+            let mut i = 0;
+            while i < N { if a[i] == b'1' { last = Some(i); } i += 1; }
+            let p = match last { Some(x) => x, None => N };
+            let nets: [(&'static AddressParams, &[u8], &[u8]); 3] = [(&LIQ, b"ex", b"lq"), (&ELE, b"ert", b"el"), (&TLQ, b"tex", b"tlq")];
+            let mut want: Option<(usize, bool)> = None;
+            let mut j = 0;
+            while j < 3 {
+                let considered = !$with_params || core::ptr::eq(nets[j].0, params);
+                if considered && p <= 3 {
+                    if eq_nocase(&a, p, nets[j].1) { want = Some((nets[j].0 as *const AddressParams as usize, false)); }
+                    if eq_nocase(&a, p, nets[j].2) { want = Some((nets[j].0 as *const AddressParams as usize, true)); }
+                }
+                j += 1;
+            }
+            if fb + dec > 0 { // recorder active (under `cargo kani playback` stubs are not applied: skip)
+                match want {
+                    Some((wp, wb)) => { assert!(fb == 1 && dec == 0); assert!(fb_par == wp && fb_bl == wb); }
+                    None => { assert!(fb == 0 && dec == 1); }
+                }
+            }
+            if let Ok(ref adr) = r {
+                if $with_params { assert!(core::ptr::eq(adr.params, params)); }
+            }
+            kani::cover!(N < 3 || fb == 1);
+            kani::cover!(dec == 1);
+            kani::cover!(N < 3 || (fb == 1 && fb_bl));
+            kani::cover!(N < 3 || (fb == 1 && !fb_bl));
             kani::cover!(matches!(r, Err(AddressError::Base58(_))));
             kani::cover!(matches!(r, Err(AddressError::InvalidLength(_))));
-            kani::cover!(matches!(r, Err(AddressError::InvalidAddressVersion(_))));
-            kani::cover!(matches!(r, Ok(_)));
-            if let Ok(ref adr) = r {
-                assert!(core::ptr::eq(adr.params, params));
-                assert!(!matches!(adr.payload, Payload::WitnessProgram { .. }));
-            }
+            kani::cover!($with_params || matches!(r, Err(AddressError::InvalidAddress(_))));
+            kani::cover!(matches!(r, Ok(Address { blinding_pubkey: None, payload: Payload::PubkeyHash(_), .. })));
+            kani::cover!(matches!(r, Ok(Address { blinding_pubkey: Some(_), .. })));
             core::mem::forget(r);
         }
     };
 }
-//@ harness: parse_with_params_l0 class=F tier=quick props=C10 timeout=600
-//@ clause: Address::parse_with_params(s, LIQUID|ELEMENTS|LIQUID_TESTNET) on the empty string: no panic; Ok only with the given network; [A] base58 decode_check and pubkey parse by model
-parse_with_params_total!(parse_with_params_l0, 0, 6);
-//@ harness: parse_with_params_l3 class=F tier=quick props=C10 timeout=900
-//@ clause: same, every 3-character ASCII string
-parse_with_params_total!(parse_with_params_l3, 3, 7);
-//@ harness: parse_with_params_l5 class=F tier=thorough props=C10 timeout=1800
-//@ clause: same, every 5-character ASCII string
-parse_with_params_total!(parse_with_params_l5, 5, 9);
+//@ harness: from_str_l0 class=F tier=quick props=C10,C06 timeout=900
+//@ clause: Address::from_str on the empty string: no panic; goes to base58; [A] from_bech32 by recording model (totality: from_bech32_l*), base58 decode_check and pubkey parse by model
+dispatch_total!(from_str_l0, 0, 6, false);
+//@ harness: from_str_l3 class=F tier=thorough props=C10,C06 timeout=1800
+//@ clause: Address::from_str on every 3-character ASCII string: no panic; from_bech32 is entered IFF the prefix before the last '1' equals one of the six HRPs up to case, with exactly that network and blinded flag; otherwise base58
+dispatch_total!(from_str_l3, 3, 7, false);
+//@ harness: from_str_l4 class=F tier=thorough props=C10,C06 timeout=2400
+//@ clause: same, every 4-character ASCII string (reaches ert1 / tex1 / tlq1 and ex1x / lq1x / el1x)
+dispatch_total!(from_str_l4, 4, 8, false);
+//@ harness: parse_with_params_l0 class=F tier=quick props=C10,C06 timeout=900
+//@ clause: Address::parse_with_params(s, LIQUID|ELEMENTS|LIQUID_TESTNET) on the empty string: no panic; Ok only with the given network
+dispatch_total!(parse_with_params_l0, 0, 6, true);
+//@ harness: parse_with_params_l3 class=F tier=thorough props=C10,C06 timeout=1800
+//@ clause: same on every 3-character ASCII string; from_bech32 entered IFF the prefix equals one of the two HRPs of the given network
+dispatch_total!(parse_with_params_l3, 3, 7, true);
+//@ harness: parse_with_params_l4 class=F tier=thorough props=C10,C06 timeout=2400
+//@ clause: same, every 4-character ASCII string
+dispatch_total!(parse_with_params_l4, 4, 8, true);
+
+macro_rules! from_bech32_total {
+    ($name:ident, $n:expr, $unw:literal) => {
+        #[kani::proof]
+        #[kani::unwind($unw)]
+        #[kani::stub(sffi::secp256k1_ec_pubkey_parse, ffi_models::pubkey_parse_model)]
+        #[kani::stub(sffi::secp256k1_ec_pubkey_serialize, ffi_models::pubkey_serialize_model)]
+        fn $name() {
+            const N: usize = $n;
+            ffi_models::init();
+            let a: [u8; N] = ascii::<N>();
+            let s: &str = match core::str::from_utf8(&a) { Ok(s) => s, Err(_) => { assert!(false); return; } };
+            let k: u8 = kani::any();
+            kani::assume(k < 3);
+            let params: &'static AddressParams = match k { 0 => &LIQ, 1 => &ELE, _ => &TLQ };
+            let blinded: bool = kani::any();
+            let r = Address::from_bech32(s, blinded, params);
+            // fewer than hrp + '1' + version + checksum characters: never an address
+            assert!(r.is_err());
+            kani::cover!(blinded && matches!(r, Err(AddressError::Blech32(_))));
+            kani::cover!(!blinded && matches!(r, Err(AddressError::Bech32(_))));
+            core::mem::forget(r);
+        }
+    };
+}
+//@ harness: from_bech32_l0 class=F tier=quick props=C10 timeout=900
+//@ clause: the real Address::from_bech32 (blech32 decoder for blinded, bech32-crate decoder for unblinded) on the empty string, all networks: Err, no panic
+from_bech32_total!(from_bech32_l0, 0, 4);
+//@ harness: from_bech32_l3 class=F tier=quick props=C10 timeout=900
+//@ clause: same, every 3-character ASCII string (incl. "el1", "ex1": empty data part)
+from_bech32_total!(from_bech32_l3, 3, 7);
+//@ harness: from_bech32_l4 class=F tier=thorough props=C10 timeout=1800
+//@ clause: same, every 4-character ASCII string
+from_bech32_total!(from_bech32_l4, 4, 8);
+//@ harness: from_bech32_l6 class=F tier=thorough props=C10 timeout=1800
+//@ clause: same, every 6-character ASCII string
+from_bech32_total!(from_bech32_l6, 6, 10);
